@@ -90,8 +90,49 @@ func c04Single(c *Ctx, d *driverModel) {
 	var cas ssa.Value
 	for _, b := range sc.Blocks {
 		for _, ins := range b.Instrs {
-			if call, ok := ins.(*ssa.Call); ok && d.flagOp(call) == "win" {
+			call, ok := ins.(*ssa.Call)
+			if !ok {
+				continue
+			}
+			if d.flagOp(call) == "win" {
 				cas = call
+			}
+			// the claim split off into a bool helper of the driver package that performs the compare-and-swap
+			if h := call.Call.StaticCallee(); h != nil && h.Blocks != nil && h.Pkg == sc.Pkg && h != sc {
+				if bt, ok := call.Type().Underlying().(*types.Basic); ok && bt.Kind() == types.Bool {
+					for _, hb := range h.Blocks {
+						for _, hi := range hb.Instrs {
+							if d.flagOp(hi) == "win" {
+								cas = call
+							}
+						}
+					}
+				}
+			}
+		}
+	}
+	// helpers that emit the answer and are called from the completion function only
+	emitSites := map[*ssa.Function][]*ssa.BasicBlock{}
+	for _, b := range sc.Blocks {
+		for _, ins := range b.Instrs {
+			if call, ok := ins.(ssa.CallInstruction); ok {
+				if h := call.Common().StaticCallee(); h != nil && h.Blocks != nil && h.Pkg == sc.Pkg && h != sc {
+					emitSites[h] = append(emitSites[h], b)
+				}
+			}
+		}
+	}
+	for h := range emitSites {
+		for _, g := range c.P.AllFuncs {
+			if g == sc || g.Blocks == nil {
+				continue
+			}
+			for _, gb := range g.Blocks {
+				for _, gi := range gb.Instrs {
+					if call, ok := gi.(ssa.CallInstruction); ok && call.Common().StaticCallee() == h {
+						delete(emitSites, h) // also called from elsewhere
+					}
+				}
 			}
 		}
 	}
@@ -112,12 +153,31 @@ func c04Single(c *Ctx, d *driverModel) {
 					continue
 				}
 				n++
+				domStarts := []*ssa.BasicBlock{b}
 				if fn != sc {
-					elsewhere = append(elsewhere, c.P.FuncName(fn)+" at "+c.pos(s.Pos()))
-					continue
+					if sites, ok := emitSites[fn]; ok {
+						domStarts = sites // the helper's call sites in the completion function must be past the claim
+					} else {
+						elsewhere = append(elsewhere, c.P.FuncName(fn)+" at "+c.pos(s.Pos()))
+						continue
+					}
 				}
 				// dominated by the CAS true edge
-				dom := false
+				dom := true
+				for _, start := range domStarts {
+					one := false
+					for cur := start; cur != nil; {
+						dd := cur.Idom()
+						if dd == nil {
+							break
+						}
+						if ifi, ok := dd.Instrs[len(dd.Instrs)-1].(*ssa.If); ok && cas != nil && ifi.Cond == cas && onEdge(dd, 0, cur) {
+							one = true
+						}
+						cur = dd
+					}
+					dom = dom && one
+				}
 				cur := b
 				var lenGuard, lenPol = false, false
 				for cur != nil {
@@ -127,9 +187,6 @@ func c04Single(c *Ctx, d *driverModel) {
 					}
 					if ifi, ok := dd.Instrs[len(dd.Instrs)-1].(*ssa.If); ok {
 						onTrue := onEdge(dd, 0, cur)
-						if cas != nil && ifi.Cond == cas && onTrue {
-							dom = true
-						}
 						if bo, ok := ifi.Cond.(*ssa.BinOp); ok && strings.HasPrefix(pathExpr(bo.X), "len(") && strings.Contains(pathExpr(bo.X), ".Moves") {
 							if k, ok := constInt(bo.Y); ok && k == 0 && (bo.Op == token.GTR || bo.Op == token.NEQ) {
 								lenGuard, lenPol = true, onTrue
@@ -262,11 +319,19 @@ func c04Complete(c *Ctx, d *driverModel) {
 		r.Fail("R04-complete", "the forwarder completes a search that ends by itself", c.pos(d.process.Pos()), "", "no goroutine started by the go arm calls the completion function")
 	} else {
 		good, detail := false, "the completion is not guarded by the infinite flag"
+		pvGuard := ""
 		for _, ev := range events {
 			{
 				b := ev.blk
 				if b.Parent() != fwd.fn {
 					continue
+				}
+				// no guard may depend on the result itself: a search whose root has no legal move ends with
+				// a PV without moves, and that result is what makes the driver answer 'bestmove 0000'
+				for _, ge := range edgeGuards(b) {
+					if dependsOnValue(ge.cond, ev.pv, fwd) {
+						pvGuard = "the completion is skipped depending on the result (" + pathExpr(ge.cond) + "): a search of a checkmated or stalemated position ends by itself with a PV that has no moves, its go is then never answered"
+					}
 				}
 				// guard: the flag that is set exactly by the "infinite" option of the go command is false
 				for _, ge := range edgeGuards(b) {
@@ -338,6 +403,9 @@ func c04Complete(c *Ctx, d *driverModel) {
 					detail += "; completes with " + pathExpr(ev.pv) + ", which is not the last PV received from Analyze's channel"
 				}
 			}
+		}
+		if pvGuard != "" {
+			good, detail = false, pvGuard
 		}
 		r.Check(good, "R04-complete", "the forwarder completes a search that ends by itself", c.pos(fwd.fn.Pos()), "", "the forwarder must complete with the last PV exactly when the search is not infinite ("+detail+")")
 	}
@@ -750,4 +818,42 @@ func (m *complMsg) sentDone(snd *ssa.Send) (ssa.Value, bool) {
 		}
 	}
 	return pv, done && pv != nil
+}
+
+// dependsOnValue: cond is computed from the variable v (any of its definitions) or from a component of it.
+func dependsOnValue(cond, v ssa.Value, gt *goTarget) bool {
+	targets := map[ssa.Value]bool{stripConv(v): true}
+	for _, df := range gt.outerDefs(v) {
+		targets[stripConv(df.val)] = true
+	}
+	// the cell of a captured / address-taken local
+	if u, ok := stripConv(v).(*ssa.UnOp); ok {
+		targets[u.X] = true
+	}
+	seen := map[ssa.Value]bool{}
+	var walk func(x ssa.Value, d int) bool
+	walk = func(x ssa.Value, d int) bool {
+		if x == nil || seen[x] || d > 8 {
+			return false
+		}
+		seen[x] = true
+		if targets[stripConv(x)] {
+			return true
+		}
+		if _, isConst := x.(*ssa.Const); isConst {
+			return false
+		}
+		if ins, ok := x.(ssa.Instruction); ok {
+			if _, isCall := x.(*ssa.Call); isCall {
+				// a call: only its arguments
+			}
+			for _, op := range ins.Operands(nil) {
+				if op != nil && *op != nil && walk(*op, d+1) {
+					return true
+				}
+			}
+		}
+		return false
+	}
+	return walk(cond, 0)
 }
